@@ -473,6 +473,35 @@ def _braced(code, start):
     raise GenError("unbalanced braces")
 
 
+LISTENER_ACCEPT = r"[\w.$]+\s*\.\s*accept\(\s*\)"      # `listener.accept()` (the TLS `acceptor.accept(stream)` has an argument)
+_LEAVES = r"\bbreak\b|\breturn\b|\?|process::exit|panic!|unreachable!|bail!|\b(unwrap|expect)\s*\("
+
+
+def _err_arm_stays(loop_text, scrutinee):
+    """`match <scrutinee> { …, Err(…) => <arm> }` inside the loop: True iff the `Err` arm does not leave the loop."""
+    m = re.search(r"\bmatch\s+%s\s*\{" % scrutinee, loop_text)
+    if not m:
+        return False
+    body = _braced(loop_text, m.start())
+    a = re.search(r"\bErr\s*\([^)]*\)\s*=>\s*", body)
+    if not a:
+        return False
+    rest = body[a.end():]
+    arm = _braced(rest, 0) if rest.startswith("{") else re.split(r"[,}]", rest, maxsplit=1)[0]
+    return not re.search(_LEAVES, arm)
+
+
+def kept_profile():
+    """The facts of the Gen/Profile.lean that is in place (used by C17 when the scan fails: the histories are
+    played all the same, the failed scan is reported as a broken tie)."""
+    text = open(os.path.join(vlib.LEAN, "AcmedVerif", "Gen", "Profile.lean")).read()
+
+    def flag(name):
+        m = re.search(r"def %s : Bool := (true|false)" % name, text)
+        return bool(m) and m.group(1) == "true"
+    return {"panic": "abort" if flag("releasePanicAbort") else "unwind", "unwraps": flag("acceptResultUnwrapped")}
+
+
 def gen_profile():
     """What the project ships: Cargo.toml [profile.release] panic strategy, the Makefile's --release
     build, and whether tacd's per-connection thread can panic on a failed handshake (an
@@ -490,15 +519,23 @@ def gen_profile():
     ships_release = bool(re.search(r"cargo build --bin tacd --release", mk))
     srv = vlib.read_repo("tacd/src/openssl_server.rs")
     code = "\n".join(l.split("//")[0] for l in srv.split("\n"))
-    if ".incoming()" not in code or ".accept(" not in code:
-        raise GenError("tacd accept loop not recognised")
-    unwraps = bool(re.search(r"\.accept\([^)]*\)\s*\.\s*(unwrap|expect)\s*\(", code))
+    # (the handshake's result: `acceptor.accept(stream)` — an argument; `listener.accept()` has none)
+    unwraps = bool(re.search(r"\.accept\(\s*[^)\s][^)]*\)\s*\.\s*(unwrap|expect)\s*\(", code))
+
+    def _bad(msg):
+        # what was established before the loop scan failed (C17 plays its histories all the same)
+        e = GenError(msg)
+        e.partial = {"panic": panic, "unwraps": unwraps}
+        return e
+    by_call = None if ".incoming()" in code else re.search(LISTENER_ACCEPT, code)
+    if (".incoming()" not in code and not by_call) or ".accept(" not in code:
+        raise _bad("tacd accept loop not recognised")
     # the item (macro or function) that contains the accept loop, and every function it calls per
     # connection in the same file (one level: e.g. a `serve_client` the loop spawns)
-    at = code.index(".incoming()")
+    at = by_call.start() if by_call else code.index(".incoming()")
     starts = [m.start() for m in re.finditer(r"macro_rules!\s*\w+|\bfn\s+\w+", code) if m.start() < at]
     if not starts:
-        raise GenError("tacd accept loop not recognised (no enclosing item)")
+        raise _bad("tacd accept loop not recognised (no enclosing item)")
     macro = _braced(code, starts[-1])
     for fname in set(re.findall(r"\b(\w+)\s*\(", macro)):
         m2 = re.search(r"\bfn\s+%s\b" % re.escape(fname), code)
@@ -511,7 +548,20 @@ def gen_profile():
     # closures it spawns (a `return` inside a connection thread does not leave the accept loop)
     item = _braced(code, starts[-1])
     fm = None
-    for m3 in re.finditer(r"\bfor\b", item):
+    shape = "for"
+    if by_call:
+        # the listener's `accept()` called in a loop of its own: `while let Ok(…) = listener.accept() { … }`
+        # (the loop ENDS at the first Err) or `loop { … listener.accept() … }`
+        mw = re.search(r"\bwhile\s+let\s+Ok\s*\([^=]*\)\s*=\s*%s" % LISTENER_ACCEPT, item)
+        ml = [m3 for m3 in re.finditer(r"\b(loop|while\s+true)\s*\{", item)
+              if re.search(LISTENER_ACCEPT, _braced(item, m3.start()))]
+        if mw:
+            fm, shape = mw, "while-let"
+        elif ml:
+            fm, shape = ml[-1], "loop"
+        else:
+            raise _bad("tacd accept loop not recognised (no loop around the listener's `accept()`)")
+    for m3 in ([] if by_call else re.finditer(r"\bfor\b", item)):
         if ".incoming()" in item and m3.start() < item.index(".incoming()") and \
                 ".incoming()" in _braced(item, m3.start()).split("{")[0]:
             fm = m3
@@ -520,11 +570,11 @@ def gen_profile():
         mcall = re.search(r"\b(\w+)\s*\(\s*[\w.]+\.incoming\(\)", item)
         mdef = re.search(r"\bfn\s+%s\b" % re.escape(mcall.group(1)), code) if mcall else None
         if not mdef:
-            raise GenError("tacd accept loop not recognised (no `for … in ….incoming()`)")
+            raise _bad("tacd accept loop not recognised (no `for … in ….incoming()`)")
         item = _braced(code, mdef.start())
         fm = re.search(r"\bfor\b", item)
         if fm is None:
-            raise GenError("tacd accept loop not recognised (no loop in %s)" % mcall.group(1))
+            raise _bad("tacd accept loop not recognised (no loop in %s)" % mcall.group(1))
         macro += "\n" + item
         for fname in set(re.findall(r"\b(\w+)\s*\(", item)):
             m2 = re.search(r"\bfn\s+%s\b" % re.escape(fname), code)
@@ -546,8 +596,15 @@ def gen_profile():
                  or re.search(r"let\s+Ok\(\w+\)\s*=\s*%s\s+else\s*\{\s*continue" % v, loop_text)
                  or re.search(r"match\s+%s\s*\{[^}]*Err\([^)]*\)\s*=>\s*(continue|\{\s*continue|\(\)|\{\s*\})" % v, loop_text, re.S)
                  or re.search(r"\.incoming\(\)\s*\.\s*(flatten|filter_map)\b", item))
+    if shape == "while-let":
+        skips = False          # an Err makes the loop condition false
+    elif shape == "loop":
+        skips = bool(re.search(r"if\s+let\s+Ok\s*\([^=]*\)\s*=\s*%s" % LISTENER_ACCEPT, loop_text)
+                     or re.search(r"let\s+Ok\s*\([^=]*\)\s*=\s*%s\s*else\s*\{\s*continue" % LISTENER_ACCEPT, loop_text)
+                     or _err_arm_stays(loop_text, LISTENER_ACCEPT))
     # `?` / return / break / exit inside the loop leave it for good
     early = len(re.findall(r"\?\s*[;.)]|\breturn\b|\bbreak\b|process::exit|\b%s\s*\.\s*(unwrap|expect)\s*\(" % v, loop_text))
+    early += len(re.findall(r"%s\s*\.\s*(unwrap|expect)\s*\(" % LISTENER_ACCEPT, loop_text))
     loop_exits = (not skips) or early > 0
     text = ("/- GENERATED by /verif/py/gen.py from /repo/Cargo.toml, Makefile, tacd/src/openssl_server.rs on\n"
             "   every run. Do not edit. -/\nnamespace AcmedVerif.Gen\n\n"
